@@ -474,7 +474,7 @@ try:
             kind = rng.choice(['2d', '2d', '2d', 'one_il', 'one_xl'])
             fmt = rng.choice([5, 5, 1])
             hd = rng.choice(['heuristic', 'heuristic', 'thorough', 'exhaustive'])
-            run_case(kind, nt, ns, bpv, bs, fmt, rng.choice([4000, 2000, 1000]), rng.choice([0, 100, -100, -12]), hd)
+            run_case(kind, nt, ns, bpv, bs, fmt, rng.choice([4000, 2000, 1000, 500, 2500]), rng.choice([0, 100, -100, -12]), hd)
     # every residue of n_traces mod blockshape[1] for the small group widths, every residue of n_samples mod 4 (and mod 8 blocks)
     for bs1, bpv, bs in ((4, 8, (1, 4, -1)), (8, 8, (1, 8, 512)), (16, 4, (1, 16, -1))):
         for rres in (range(bs1) if not quick else rng.sample(range(bs1), 4)):
